@@ -24,6 +24,9 @@ def run_script(kind, lines, timeout=1800, env=None):
     ok, o = build(kind)
     if not ok: raise RuntimeError('harness build failed (%s):\n%s' % (kind, o[-4000:]))
     ops = [l for l in lines if l.strip() and not l.lstrip().startswith('#')]
+    if os.environ.get('VERIF_OPLOG'):      # coverage audit: which harness ops do the checks exercise
+        with open(os.environ['VERIF_OPLOG'], 'a') as fh:
+            for l in ops: fh.write('%s %s\n' % (kind, ' '.join(l.split()[:3 if l.startswith('r1.shape') else 1])))
     e = {'H_OP_TIMEOUT_MS': '20000'}
     if env: e.update(env)
     res = []
